@@ -8,7 +8,7 @@ DEC = {"der": "ber", "uper": "uper", "oer": "oer", "xer": "xer", "cxer": "xer"}
 def run(ctx):
     ctx.lean()
     gfind.replay_witnesses(ctx)
-    nb = 4 if ctx.quick else 30
+    nb = 3 if ctx.quick else 30
     nvals = 3 if ctx.quick else 8
     mods = c01.gen_bundles(ctx, nb, allow_recursion=True)
     stats = collections.Counter()
@@ -34,7 +34,7 @@ def run(ctx):
         outs, _ = ctx.run_c_bisect(exe, enc_lines)
         corpus = []
         for (n, syn), o in zip(meta, outs):
-            if o and o.startswith("ok ") and len(o) < 4000:
+            if o and o.startswith("ok ") and len(o) < (1200 if ctx.quick else 6000):
                 corpus.append((n, syn, bytes.fromhex(o[3:]) if o[3:] != "-" else b""))
         # 2. malformed stream
         lines, lmeta = [], []
@@ -42,9 +42,9 @@ def run(ctx):
             lines.append(f"@{n} dec {DEC[syn]} {data.hex() if data else '-'}"); lmeta.append((n, syn, len(data), kind))
         for n, syn, data in corpus:
             add(n, syn, data, "valid")
-            for d in mutate.truncations(data, cap=48 if ctx.quick else 400): add(n, syn, d, "trunc")
-            for d in (mutate.all_bitflips(data, 12 if ctx.quick else 64)): add(n, syn, d, "flip")
-            for d in mutate.surgery(data, ctx.rng, 12 if ctx.quick else 60): add(n, syn, d, "surgery")
+            for d in mutate.truncations(data, cap=32 if ctx.quick else 400): add(n, syn, d, "trunc")
+            for d in (mutate.all_bitflips(data, 6 if ctx.quick else 64)): add(n, syn, d, "flip")
+            for d in mutate.surgery(data, ctx.rng, 8 if ctx.quick else 60): add(n, syn, d, "surgery")
         # splices of two encodings and random bytes, against every type
         names = [n for n, _ in m["types"]]
         for _ in range(40 if ctx.quick else 400):
@@ -84,6 +84,15 @@ def run(ctx):
         if "stack-overflow" in o and "_constraint" in o:
             if ctx.match_finding(lambda k: k["id"] == "F48"): continue
         unexplained.append(f)
+    sig = collections.Counter()
+    first = {}
+    for f in unexplained:
+        m2 = re.search(r"(\S+\.[ch]:\d+)", f[4]) if f[4].startswith("crash") else None
+        key = (f[5], m2.group(1) if m2 else f[4][:50])
+        sig[key] += 1; first.setdefault(key, f)
+    for key, cnt in sig.most_common(12):
+        ctx.log("  class", cnt, key, "| e.g.", first[key][2][:100])
+    unexplained = [first[k] for k, _ in sig.most_common()]
     for txt, n, l, o, why, syn in unexplained[:5]:
         ctx.violation(f"C04: decoding arbitrary bytes misbehaves for type {n} ({syn}): {why} on {l[:120]}",
                       {"module": txt, "type": n, "op": l, "c_output": o, "why": why})
